@@ -51,7 +51,10 @@ static inline void vstream__read_n(struct vstream *s, char *p, size_t n) {
 }
 static inline bool vstream__good(struct vstream *s) { (void)s; return true; }
 static inline void vstream__seekg(struct vstream *s, size_t off, int whence) { (void)whence; s->pos = off; }
-#ifdef VSTREAM_NO_ARRAY_LOAD
+#ifdef VSTREAM_HAVOC_ARRAY_LOAD
+/* obligations about header fields only: an array payload is an arbitrary pointer, the stream position moves on */
+#define LOADARRAY(T, N) static inline T *loadValue__##N##__2(struct vstream *in, const size_t len) { T *r_; return r_; }
+#elif defined(VSTREAM_NO_ARRAY_LOAD)
 /* slice obligations that must return before any payload is read: array loads assert(0) */
 #define LOADARRAY(T, N) static inline T *loadValue__##N##__2(struct vstream *in, const size_t len) { __CPROVER_assert(0, "payload read reached in a slice that must return before it"); __CPROVER_assume(0); return 0; }
 #else
